@@ -28,6 +28,7 @@ import (
 	"seata.apache.org/seata-go/pkg/tm"
 	"seata.apache.org/seata-go/pkg/util/vshim/vtime"
 
+	"verifharness/faketc"
 	"verifharness/gen"
 	"verifharness/quiet"
 	"verifharness/rep"
@@ -81,6 +82,10 @@ func run(policy string, h History) (clause, detail string) {
 	sgetty.VerifResetRemoting()
 	loadbalance.VerifReset()
 	config.GetSeataConfig().LoadBalanceType = policy
+	// a selection that falls into the check-alive polling loop runs through it at once instead of sleeping
+	vtime.SetVirtual(nil)
+	vtime.AutoTick = true
+	defer func() { vtime.AutoTick = false; vtime.SetPassThrough() }()
 	for _, a := range addrs {
 		rpc.RemoveStatus(a) // the per-address in-flight counters the least-active policy reads
 	}
@@ -105,6 +110,15 @@ func run(policy string, h History) (clause, detail string) {
 				return "", ""
 			}
 			all[i].Close()
+			sgetty.VerifReleaseSession(all[i])
+			registered[i] = false
+		case 'x': // getty reports a broken connection as an error followed by the close: the session is released twice
+			i := int(ev[1] - '0')
+			if i >= len(all) {
+				return "", ""
+			}
+			all[i].Close()
+			sgetty.VerifReleaseSession(all[i])
 			sgetty.VerifReleaseSession(all[i])
 			registered[i] = false
 		case 'b': // a request is put in flight on address a (the counter a sender increments around its write)
@@ -182,6 +196,7 @@ func enumerate(depth, maxSess int, withCounters bool, yield func(h History)) {
 		for i := 0; i < nsess; i++ {
 			rec(append(h, fmt.Sprintf("d%d", i)), nsess)
 			rec(append(h, fmt.Sprintf("r%d", i)), nsess)
+			rec(append(h, fmt.Sprintf("x%d", i)), nsess)
 		}
 		if nsess > 0 && withCounters {
 			for a := range addrs {
@@ -225,6 +240,26 @@ func partA(r *rep.Run, thorough bool) {
 				}
 			}
 		})
+		// beyond the depth bound: every connection of a two-address set is lost (error, then close) and re-established, then a
+		// selection for each xid; also with the reconnections in the other order and with one more plain release in between
+		for a := range addrs {
+			for b := range addrs {
+				for x := range xids {
+					for _, mid := range [][]string{{"x0", "x1"}, {"x1", "x0"}, {"x0", "r0", "x1"}, {"d0", "x1", "r0"}} {
+						for _, re := range [][]string{{fmt.Sprintf("o%d", a), fmt.Sprintf("o%d", b)}, {fmt.Sprintf("o%d", b), fmt.Sprintf("o%d", a)}} {
+							h := History{fmt.Sprintf("o%d", a), fmt.Sprintf("o%d", b)}
+							h = append(append(append(h, mid...), re...), fmt.Sprintf("s%d", x))
+							n++
+							r.Eval(true)
+							r.Count("bounce_histories", 1)
+							if clause, detail := run(p, h); clause != "" {
+								r.Violate(fmt.Sprintf("%s/%s", clause, p), clauseA, Located{p, h}, detail+fmt.Sprintf(" | history %v", h))
+							}
+						}
+					}
+				}
+			}
+		}
 		r.Count("histories/"+p, int64(n))
 	}
 }
@@ -312,11 +347,55 @@ func partB(r *rep.Run) {
 		vtime.SetPassThrough()
 		_ = xid
 	}
+	// the write of the announcement itself fails once on the re-established connection, which stays open: the client must
+	// end up announced on an open session all the same (it gives the session up and is announced on the next one, or repeats
+	// the announcement); a registered open session that never saw the announcement cannot carry new transactions
+	for _, fails := range []int{1, 2} {
+		r.Eval(true)
+		e, err := sys.NewEnv([]string{gen.S1.DDL}, sys.Options{NoXA: true})
+		if err != nil {
+			r.Broken = err.Error()
+			return
+		}
+		vtime.SetVirtual(func(d time.Duration) bool { return d < 20*time.Second })
+		tc := e.TC
+		tc.CloseSession(e.Sess)
+		var cur *faketc.Session
+		opened := 0
+		for k := 0; k < 4; k++ { // getty redials as long as the client closes what it is given
+			cur = tc.NewSession("192.168.0.1:8091")
+			if k == 0 {
+				cur.FailWrites(fails)
+			}
+			opened++
+			sgetty.GetGettyClientHandlerInstance().OnOpen(cur)
+			quiet.Settle(nil, 5)
+			if !cur.IsClosed() {
+				break
+			}
+			sgetty.GetGettyClientHandlerInstance().OnClose(cur)
+		}
+		sawTM := false
+		for _, ev := range tc.Events() {
+			if ev.Session == cur.SID && ev.Dir == "c2s" {
+				if _, ok := ev.Msg.Body.(message.RegisterTMRequest); ok {
+					sawTM = true
+				}
+			}
+		}
+		loc := map[string]interface{}{"when": "announce-write-fails", "failed_writes": fails}
+		if cur.IsClosed() {
+			r.Violate("no-session-kept/announce-write-fails", clauseB, loc, fmt.Sprintf("the client closed all %d sessions it was given", opened))
+		} else if !sawTM {
+			r.Violate("tm-not-reannounced/announce-write-fails", clauseB, loc, fmt.Sprintf("the write of the announcement failed %d time(s) on the new session %d; the session is open and registered but no RegisterTMRequest ever arrived on it (sessions opened: %d)", fails, cur.SID, opened))
+		}
+		vtime.SetPassThrough()
+	}
 }
 
 func Run(r *rep.Run) {
 	thorough := r.Tier == "thorough"
-	r.Rule = "A: every history of up to 5 (thorough 6) events over {open a connection to one of 3 addresses (one address a textual prefix of another), a session dies silently, getty reports a session closed, (least-active policy only) a request put in flight on one of the addresses, select for one of 5 xids (3 matching addresses, one foreign address, one not of the form ip:port:id)} with at most 2 (thorough 3) sessions, ending in a selection, x the five policies, on the real registry through sessionManager.selectSession with the request wrapped as the client wraps it. B: connection loss and re-establishment while idle, between phase one and phase two of an AT branch, and twice in a row, on the closed system."
+	r.Rule = "A: every history of up to 5 (thorough 6) events over {open a connection to one of 3 addresses (one address a textual prefix of another), a session dies silently, getty reports a session closed, getty reports a session broken (error, then close: two releases), (least-active policy only) a request put in flight on one of the addresses, select for one of 5 xids (3 matching addresses, one foreign address, one not of the form ip:port:id)} with at most 2 (thorough 3) sessions, ending in a selection, x the five policies, on the real registry through sessionManager.selectSession with the request wrapped as the client wraps it. B: connection loss and re-establishment while idle, between phase one and phase two of an AT branch, and twice in a row, on the closed system."
 	r.Assume = []string{"the index drawn by the random policies is not controlled (time-seeded); the oracle must hold for every index and each history is repeated 3 times", "selection with no open session (the check-alive wait) is not driven"}
 	sys.InitClient()
 	if replay := os.Getenv("VERIF_REPLAY"); replay != "" {
